@@ -221,6 +221,7 @@ def judge(ctx, mode, geno, geno_arr, costs, code, roundtrip, acc, case):
             key = "parsimony:not_minimal"
             if internal_missing:
                 key += ":internal_sample_missing"
+                acc.count("cases_not_minimal_internal_sample_missing")
             fail(key, f"{desc}: {len(rows)} mutations, minimum is {opt}"
                  + (" (fixed ancestral state)" if fixed is not None else ""))
         elif bad:
